@@ -9,13 +9,63 @@ static void out_z(const char *k, mpz_srcptr z) { char *h = hex_of_limbs(PTR(z), 
 static void mkfmt(char *fmt, const char *fl, int w, int p, const char *type, char conv) {
   char *q = fmt; *q++ = '%'; q += sprintf(q, "%s", fl); if (w >= 0) q += sprintf(q, "%d", w); if (p >= 0) q += sprintf(q, ".%d", p); q += sprintf(q, "%s%c", type, conv);
 }
+/* the other members of the printf family: each has its own output callbacks (sprintffuns.c, asprntffuns.c, printffuns.c,
+   obprntffuns.c, snprntffuns.c) behind the same __gmp_doprnt, and each has a va_list twin */
+#include <obstack.h>
+#include <stdarg.h>
+#include <unistd.h>
+#define obstack_chunk_alloc malloc
+#define obstack_chunk_free free
+static int v_sprintf(char *b, const char *f, ...) { va_list ap; int r; va_start(ap, f); r = gmp_vsprintf(b, f, ap); va_end(ap); return r; }
+static int v_snprintf(char *b, size_t n, const char *f, ...) { va_list ap; int r; va_start(ap, f); r = gmp_vsnprintf(b, n, f, ap); va_end(ap); return r; }
+static int v_asprintf(char **b, const char *f, ...) { va_list ap; int r; va_start(ap, f); r = gmp_vasprintf(b, f, ap); va_end(ap); return r; }
+static int v_fprintf(FILE *o, const char *f, ...) { va_list ap; int r; va_start(ap, f); r = gmp_vfprintf(o, f, ap); va_end(ap); return r; }
+static int v_printf(const char *f, ...) { va_list ap; int r; va_start(ap, f); r = gmp_vprintf(f, ap); va_end(ap); return r; }
+static int v_obprintf(struct obstack *o, const char *f, ...) { va_list ap; int r; va_start(ap, f); r = gmp_obstack_vprintf(o, f, ap); va_end(ap); return r; }
+static int v_sscanf(const char *b, const char *f, ...) { va_list ap; int r; va_start(ap, f); r = gmp_vsscanf(b, f, ap); va_end(ap); return r; }
+static int v_fscanf(FILE *i, const char *f, ...) { va_list ap; int r; va_start(ap, f); r = gmp_vfscanf(i, f, ap); va_end(ap); return r; }
+static int v_scanf(const char *f, ...) { va_list ap; int r; va_start(ap, f); r = gmp_vscanf(f, ap); va_end(ap); return r; }
+static char *altbuf; static size_t altlen; static FILE *altf;
+static void alt_add(const char *name, const char *text, size_t n, int ret) {
+  fprintf(altf, "%s{\"n\":\"%s\",\"r\":%d,\"t\":\"", ftell(altf) > 1 ? "," : "", name, ret);
+  { size_t i; for (i = 0; i < n; i++) { unsigned char ch = (unsigned char)text[i]; if (ch == '"' || ch == '\\') fprintf(altf, "\\%c", ch); else if (ch < 32 || ch > 126) fprintf(altf, "\\u%04x", ch); else fputc(ch, altf); } }
+  fputs("\"}", altf);
+}
+/* stdout captured through a temporary file */
+static int with_stdout(int use_v, const char *fmt, mpz_srcptr v, char *out, size_t cap, size_t *n) {
+  FILE *t = tmpfile(); int save, r; if (!t) { *n = 0; return -2; }
+  fflush(stdout); save = dup(1); dup2(fileno(t), 1);
+  r = use_v ? v_printf(fmt, v) : gmp_printf(fmt, v);
+  fflush(stdout); dup2(save, 1); close(save);
+  rewind(t); *n = fread(out, 1, cap, t); fclose(t); return r;
+}
+static void alt_family(const char *fmt, mpz_srcptr v) {
+  static char b[8192]; int r; size_t n; char *ap = NULL; FILE *ms; char *mb = NULL; size_t ml = 0; struct obstack ob; void (*freef)(void *, size_t);
+  altf = open_memstream(&altbuf, &altlen); fputc('[', altf);
+  r = gmp_sprintf(b, fmt, v); alt_add("gmp_sprintf", b, r < 0 ? 0 : strlen(b), r);
+  r = v_sprintf(b, fmt, v); alt_add("gmp_vsprintf", b, r < 0 ? 0 : strlen(b), r);
+  r = v_snprintf(b, sizeof b, fmt, v); alt_add("gmp_vsnprintf", b, r < 0 ? 0 : strlen(b), r);
+  mp_get_memory_functions(NULL, NULL, &freef);
+  r = gmp_asprintf(&ap, fmt, v); alt_add("gmp_asprintf", ap, r < 0 ? 0 : strlen(ap), r); if (ap) (*freef)(ap, strlen(ap) + 1);
+  ap = NULL; r = v_asprintf(&ap, fmt, v); alt_add("gmp_vasprintf", ap, r < 0 ? 0 : strlen(ap), r); if (ap) (*freef)(ap, strlen(ap) + 1);
+  ms = open_memstream(&mb, &ml); r = gmp_fprintf(ms, fmt, v); fflush(ms); alt_add("gmp_fprintf", mb, ml, r); fclose(ms); free(mb);
+  mb = NULL; ml = 0; ms = open_memstream(&mb, &ml); r = v_fprintf(ms, fmt, v); fflush(ms); alt_add("gmp_vfprintf", mb, ml, r); fclose(ms); free(mb);
+  r = with_stdout(0, fmt, v, b, sizeof b, &n); alt_add("gmp_printf", b, n, r);
+  r = with_stdout(1, fmt, v, b, sizeof b, &n); alt_add("gmp_vprintf", b, n, r);
+  obstack_init(&ob); r = gmp_obstack_printf(&ob, fmt, v); n = obstack_object_size(&ob); alt_add("gmp_obstack_printf", (char *)obstack_base(&ob), n, r); obstack_free(&ob, NULL);
+  obstack_init(&ob); r = v_obprintf(&ob, fmt, v); n = obstack_object_size(&ob); alt_add("gmp_obstack_vprintf", (char *)obstack_base(&ob), n, r); obstack_free(&ob, NULL);
+  fputc(']', altf); fclose(altf);
+}
+static long row_no;
 static void one_row(const char *fl, int w, int p, char conv, mpz_srcptr v) {
-  char fmt[64], cfmt[64], g[4096], c[4096], cv[2] = {conv, 0}; int ret, havec = mpz_fits_slong_p(v);
+  char fmt[64], cfmt[64], g[4096], c[4096], cv[2] = {conv, 0}; int ret, havec = mpz_fits_slong_p(v), alt = (row_no++ % 5 == 0);
   mkfmt(fmt, fl, w, p, "Z", conv); mkfmt(cfmt, fl, w, p, "l", conv);
+  if (alt) { priv_begin(); alt_family(fmt, v); priv_end(); }
   fn_begin("gmp_printf_z"); fn_in_str("fl", fl); fn_in_int("w", w); fn_in_int("p", p); fn_in_str("conv", cv); in_z("v", v); fn_in_int("havec", havec); fn_mid();
   ret = gmp_snprintf(g, sizeof g, fmt, v);
   c[0] = 0; if (havec) snprintf(c, sizeof c, cfmt, mpz_get_si(v));
-  fn_out_str("g", g); fn_out_str("c", c); fn_out_int("ret", ret); fn_end();
+  fn_out_str("g", g); fn_out_str("c", c); fn_out_int("ret", ret); fn_out_raw("alt", alt ? altbuf : "[]"); fn_end();
+  if (alt) { free(altbuf); altbuf = NULL; }
 }
 void drv_c18_fmt(int tier, unsigned long seed, const char *extra) {
   shard_t sh = shard_parse(extra); const char *path = opt_val(&sh, "file"); FILE *f; char line[256]; long n = 0, cnt = 0; mpz_t v, big;
@@ -74,11 +124,28 @@ void drv_c18_misc(int tier, unsigned long seed, const char *extra) {
       { static const double fd[] = {0.0, 1.0, -1.5, 0.25, 123456.75, -0.125, 1048576.0, 3.0e10, 0.5}; double d = fd[x % 9]; static const char *ff[] = {"%.6Ff", "%.10Fe", "%Fg", "%12.4Ff", "%-14.3Fe|", "%+.8Fg"}; static const char *cf[] = {"%.6f", "%.10e", "%g", "%12.4f", "%-14.3e|", "%+.8g"};
         priv_begin(); mpf_set_d(fv, d); priv_end(); snprintf(e2, sizeof e2, cf[x % 6], d);
         fn_begin("gmp_printf_mixed"); fn_in_str("expect", e2); fn_mid(); ret = gmp_snprintf(g2, sizeof g2, ff[x % 6], fv); fn_out_str("g", g2); fn_out_int("ret", ret); fn_end(); } }
+    /* %F conversions of an operand of very high precision (the digit-count tables are indexed by base, never by precision): count = length */
+    if (x % 40 == 3) { static const char *bf[] = {"%Fg", "%Fe", "%.30Ff", "%Fa", "%.Fe"}; mpf_t hp; int j; char *ap = NULL; void (*freef)(void *, size_t);
+      mp_get_memory_functions(NULL, NULL, &freef);
+      priv_begin(); mpf_init2(hp, 20000); mpf_set_ui(hp, 1); mpf_div_ui(hp, hp, 3); mpf_mul_2exp(hp, hp, (unsigned long)rnd_below(300)); priv_end();
+      for (j = 0; j < 5; j++) { fn_begin("gmp_printf_hp"); fn_in_str("fmt", bf[j]); fn_mid(); priv_begin(); ret = gmp_asprintf(&ap, bf[j], hp); priv_end();
+        fn_out_int("ret", ret); fn_out_int("len", ap ? (long)strlen(ap) : -1); fn_end(); priv_begin(); if (ap) (*freef)(ap, strlen(ap) + 1); ap = NULL; priv_end(); }
+      priv_begin(); mpf_clear(hp); priv_end(); }
     /* scanf reads back what printf wrote */
     { int r;
       fn_begin("gmp_sscanf"); fn_in_str("text", expect); in_z("v", v); fn_in_int("nfields", 1); fn_mid();
-      priv_begin(); mpz_set_ui(w, 0); { const char *sf = (x % 9 == 1 || x % 9 == 2 || x % 9 == 8) ? (x % 9 == 8 ? "[%Zi]" : (x % 9 == 1 ? "%Zx" : "%Zi")) : (x % 9 == 7 ? "%Zo" : (x % 9 == 5 ? "%Zd|" : "%Zd")); r = gmp_sscanf(expect, sf, w); } priv_end();
-      fn_out_int("ret", r); out_z("v", w); fn_end(); }
+      priv_begin(); mpz_set_ui(w, 0); { const char *sf = (x % 9 == 1 || x % 9 == 2 || x % 9 == 8) ? (x % 9 == 8 ? "[%Zi]" : (x % 9 == 1 ? "%Zx" : "%Zi")) : (x % 9 == 7 ? "%Zo" : (x % 9 == 5 ? "%Zd|" : "%Zd")); r = gmp_sscanf(expect, sf, w);
+        /* the other members of the scanf family on the same text: gmp_fscanf on a stream, gmp_scanf on a redirected stdin, the va_list twins */
+        { mpz_t w2; FILE *fi; int r2, save; char *hx; altf = open_memstream(&altbuf, &altlen); fputc('[', altf); mpz_init(w2);
+#define ALT_SCAN(name, call) do { mpz_set_ui(w2, 0); r2 = (call); hx = hex_of_limbs(PTR(w2), ABSIZ(w2), SIZ(w2) < 0); fprintf(altf, "%s{\"n\":\"%s\",\"r\":%d,\"v\":\"%s\"}", ftell(altf) > 1 ? "," : "", name, r2, hx); free(hx); } while (0)
+          fi = fmemopen((void *)expect, strlen(expect), "r"); ALT_SCAN("gmp_fscanf", gmp_fscanf(fi, sf, w2)); fclose(fi);
+          fi = fmemopen((void *)expect, strlen(expect), "r"); ALT_SCAN("gmp_vfscanf", v_fscanf(fi, sf, w2)); fclose(fi);
+          ALT_SCAN("gmp_vsscanf", v_sscanf(expect, sf, w2));
+          { FILE *t = tmpfile(); if (t) { fputs(expect, t); fflush(t); rewind(t); fflush(stdin); save = dup(0); dup2(fileno(t), 0); clearerr(stdin);
+              ALT_SCAN("gmp_scanf", gmp_scanf(sf, w2)); fseek(stdin, 0, SEEK_SET); clearerr(stdin); lseek(0, 0, SEEK_SET); ALT_SCAN("gmp_vscanf", v_scanf(sf, w2));
+              fseek(stdin, 0, SEEK_END); dup2(save, 0); close(save); clearerr(stdin); fclose(t); } }
+          mpz_clear(w2); fputc(']', altf); fclose(altf); } } priv_end();
+      fn_out_int("ret", r); out_z("v", w); fn_out_raw("alt", altbuf); fn_end(); free(altbuf); altbuf = NULL; }
   }
   priv_begin(); mpz_clear(v); mpz_clear(w); mpq_clear(q); mpq_clear(q2); mpf_clear(fv); priv_end();
 }
